@@ -487,13 +487,19 @@ class Executor:
         self._consts[k] = (e, fs)       # keep e alive: z3 reuses the ids of collected ASTs
         return fs
 
-    def check(self, st, extra=()):
+    def eval_on_path(self, st, term):
+        """some value the term takes on this path (from a model of the relevant slice), or None"""
+        r = self.check(st, [term == term], want_model=term)
+        return r if not isinstance(r, str) else None
+
+    def check(self, st, extra=(), want_model=None):
         """satisfiability of pc + extra; returns 'sat' | 'unsat' | 'unknown'.
         The path condition is satisfiable by construction (only feasible branches are followed), so only
         the conjuncts in the cone of influence of `extra` (sharing constants, transitively) are sent."""
         conds = []
         for c in extra:
-            c = z3.simplify(c) if not z3.is_true(c) and not z3.is_false(c) else c
+            if want_model is None:
+                c = z3.simplify(c) if not z3.is_true(c) and not z3.is_false(c) else c
             if z3.is_false(c):
                 return 'unsat'
             if not z3.is_true(c):
@@ -503,6 +509,8 @@ class Executor:
         names = set()
         for c in conds:
             names |= self.consts_of(c)
+        if want_model is not None:
+            names |= self.consts_of(want_model)
         pcs = [(c, self.consts_of(c)) for c in st.pc]
         chosen = []
         rest = pcs
@@ -526,9 +534,14 @@ class Executor:
         try:
             for c in allc:
                 s.add(c)
-            for a in self._axioms_for(allc):
+            for a in self._axioms_for(allc + ([want_model] if want_model is not None else [])):
                 s.add(a)
             r = s.check()
+            if want_model is not None and r == z3.sat:
+                mv = s.model().eval(want_model, model_completion=True)
+                self.stats['queries'] += 1
+                self.stats['solver_s'] += time.time() - t
+                return mv
         finally:
             s.pop()
         self.stats['queries'] += 1
